@@ -1571,40 +1571,106 @@ End ReplaceSet.
 Section Chunks.
 Variable refuse : N -> N -> bool.
 
-Definition w_chunk (a : addr) (rc : N) (nd : node) (hdr ar x : addr) (rcx : N) (nx : node)
+(* the rule of the two add_chunk functions about their second argument: a chunk of a byte string is a
+   definite byte string (asserted by cbor_bytestring_add_chunk); cbor_string_add_chunk checks nothing *)
+Definition chunk_ok (text : bool) (nx : node) : Prop :=
+  if text then True else exists data bs, nx = NStr false data bs.
+(* the world after the assertion: the byte-string function has read the chunk's type *)
+Definition w_chk (text : bool) (x : addr) (w : world) : world := if text then w else w_log (AccR x) w.
+
+Lemma w_chk_heap text x w : heap (w_chk text x w) = heap w.
+Proof. destruct text; reflexivity. Qed.
+Lemma w_chk_next text x w : next (w_chk text x w) = next w.
+Proof. destruct text; reflexivity. Qed.
+Lemma w_chk_nreq text x w : nreq (w_chk text x w) = nreq w.
+Proof. destruct text; reflexivity. Qed.
+Lemma w_chk_trace text x w : trace (w_chk text x w) = trace w.
+Proof. destruct text; reflexivity. Qed.
+Lemma w_chk_writes text x w b : In (AccW b) (alog (w_chk text x w)) -> In (AccW b) (alog w).
+Proof. destruct text; cbn; [auto|]. intros [E|H]; [discriminate E|exact H]. Qed.
+
+Lemma chunk_assert_spec text x w rcx nx :
+  heap w x = Some (CItem rcx nx) -> chunk_ok text nx -> chunk_assert text x w = Ret tt (w_chk text x w).
+Proof.
+  clear refuse. intros Hx Hk. unfold chunk_assert, w_chk. destruct text; [reflexivity|].
+  destruct Hk as (data & bs & ->). mstep (rd_item_spec x w _ _ Hx). reflexivity.
+Qed.
+
+Definition w_chunk (text : bool) (a : addr) (rc : N) (nd : node) (hdr ar x : addr) (rcx : N) (nx : node)
     (w : world) : world :=
   w_set a (CItem rc nd) (w_log (AccW hdr) (w_log (AccW ar)
-    (w_incref x rcx nx (w_log (AccR hdr) (w_log (AccR a) w))))).
+    (w_incref x rcx nx (w_log (AccR hdr) (w_chk text x (w_log (AccR a) w)))))).
 
-Definition w_chunk_grown (a : addr) (rc : N) (nd : node) (hdr : addr) (arr : option addr)
+Definition w_chunk_grown (text : bool) (a : addr) (rc : N) (nd : node) (hdr : addr) (arr : option addr)
     (bytes : N) (x : addr) (rcx : N) (nx : node) (w : world) : world :=
   w_set a (CItem rc nd) (w_log (AccW hdr) (w_log (AccW (next w))
     (w_incref x rcx nx (w_log (AccW hdr)
-       (w_realloc arr bytes (w_log (AccR hdr) (w_log (AccR a) w))))))).
+       (w_realloc arr bytes (w_log (AccR hdr) (w_chk text x (w_log (AccR a) w)))))))).
+
+(* the world after the reads that every call makes first *)
+Definition w_pre (text : bool) (a x hdr : addr) (w : world) : world :=
+  w_log (AccR hdr) (w_chk text x (w_log (AccR a) w)).
+Lemma w_pre_heap text a x hdr w : heap (w_pre text a x hdr w) = heap w.
+Proof. unfold w_pre. cbn [heap w_log]. rewrite w_chk_heap. reflexivity. Qed.
+Lemma w_pre_next text a x hdr w : next (w_pre text a x hdr w) = next w.
+Proof. unfold w_pre. cbn [next w_log]. rewrite w_chk_next. reflexivity. Qed.
+Lemma w_pre_nreq text a x hdr w : nreq (w_pre text a x hdr w) = nreq w.
+Proof. unfold w_pre. cbn [nreq w_log]. rewrite w_chk_nreq. reflexivity. Qed.
+Lemma w_pre_trace text a x hdr w : trace (w_pre text a x hdr w) = trace w.
+Proof. unfold w_pre. cbn [trace w_log]. rewrite w_chk_trace. reflexivity. Qed.
+
+(* the common prefix: read the item, check the chunk, read the header *)
+Lemma add_chunk_prefix a x w rc text hdr hsz arr cap chunks rcx nx :
+  heap w a = Some (CItem rc (NChunked text hdr arr cap chunks)) ->
+  heap w hdr = Some (CData hsz) ->
+  heap w x = Some (CItem rcx nx) -> chunk_ok text nx ->
+  add_chunk refuse a x w =
+  ((if len chunks =? cap then
+      g <- grow refuse arr SZ_PTR cap ;;
+      match g with
+      | None => ret None
+      | Some (cap', arr') => touch_data true (Some hdr) ;;; ret (Some (Some arr', cap'))
+      end
+    else ret (Some (arr, cap))) >>= fun st =>
+   match st with
+   | None => ret false
+   | Some (arr', cap') =>
+       incref x ;;;
+       touch_data true arr' ;;; touch_data true (Some hdr) ;;;
+       wr_item a rc (NChunked text hdr arr' cap' (chunks ++ [x])) ;;; ret true
+   end) (w_pre text a x hdr w).
+Proof.
+  intros Ha Hh Hx Hk. unfold add_chunk.
+  mstep (rd_item_spec a w _ _ Ha).
+  mstep (chunk_assert_spec text x (w_log (AccR a) w) rcx nx Hx Hk).
+  assert (Hh1 : heap (w_chk text x (w_log (AccR a) w)) hdr = Some (CData hsz)) by (rewrite w_chk_heap; exact Hh).
+  mstep (touch_data_spec false hdr _ hsz Hh1). reflexivity.
+Qed.
 
 Theorem add_chunk_room a x w rc text hdr hsz ar asz cap chunks rcx nx :
   heap w a = Some (CItem rc (NChunked text hdr (Some ar) cap chunks)) ->
   heap w hdr = Some (CData hsz) ->
   heap w ar = Some (CData asz) ->
-  heap w x = Some (CItem rcx nx) ->
+  heap w x = Some (CItem rcx nx) -> chunk_ok text nx ->
   a <> x ->
   len chunks <> cap ->
   add_chunk refuse a x w =
-  Ret true (w_chunk a rc (NChunked text hdr (Some ar) cap (chunks ++ [x])) hdr ar x rcx nx w).
+  Ret true (w_chunk text a rc (NChunked text hdr (Some ar) cap (chunks ++ [x])) hdr ar x rcx nx w).
 Proof.
-  intros Ha Hh Har Hx Hax Hroom. unfold add_chunk.
-  mstep (rd_item_spec a w _ _ Ha).
-  mstep (touch_data_spec false hdr (w_log (AccR a) w) hsz Hh).
+  intros Ha Hh Har Hx Hk Hax Hroom. rewrite (add_chunk_prefix a x w rc text hdr hsz _ cap chunks rcx nx Ha Hh Hx Hk).
+  unfold w_chunk. fold (w_pre text a x hdr w). set (w0 := w_pre text a x hdr w).
+  assert (H0 : heap w0 = heap w) by apply w_pre_heap. clearbody w0.
   destruct (N.eqb_spec (len chunks) cap) as [E|_]; [contradiction|].
   match goal with |- bind (ret ?v) ?f ?w1 = _ => rewrite (bind_Ret (ret v) f w1 v w1 eq_refl) end.
-  match goal with |- bind (incref x) _ ?w1 = _ => mstep (incref_spec x w1 rcx nx Hx) end.
+  assert (Hx0 : heap w0 x = Some (CItem rcx nx)) by (rewrite H0; exact Hx).
+  mstep (incref_spec x w0 rcx nx Hx0).
   assert (Hxh : x <> hdr) by (intros ->; congruence).
   assert (Hxa : x <> ar) by (intros ->; congruence).
   match goal with |- bind (touch_data true (Some ar)) _ ?w1 = _ =>
-    assert (Har1 : heap w1 ar = Some (CData asz)) by (wsimpl; rewrite upd_other by congruence; exact Har);
-    assert (Hh1 : heap w1 hdr = Some (CData hsz)) by (wsimpl; rewrite upd_other by congruence; exact Hh);
+    assert (Har1 : heap w1 ar = Some (CData asz)) by (wsimpl; rewrite upd_other by congruence; rewrite H0; exact Har);
+    assert (Hh1 : heap w1 hdr = Some (CData hsz)) by (wsimpl; rewrite upd_other by congruence; rewrite H0; exact Hh);
     assert (Ha1 : heap w1 a = Some (CItem rc (NChunked text hdr (Some ar) cap chunks)))
-      by (wsimpl; rewrite upd_other by congruence; exact Ha);
+      by (wsimpl; rewrite upd_other by congruence; rewrite H0; exact Ha);
     mstep (touch_data_spec true ar w1 asz Har1) end.
   match goal with |- bind (touch_data true (Some hdr)) _ ?w1 = _ =>
     mstep (touch_data_spec true hdr w1 hsz Hh1) end.
@@ -1613,43 +1679,44 @@ Proof.
   reflexivity.
 Qed.
 
-Theorem add_chunk_guard a x w rc text hdr hsz arr cap chunks :
+Theorem add_chunk_guard a x w rc text hdr hsz arr cap chunks rcx nx :
   heap w a = Some (CItem rc (NChunked text hdr arr cap chunks)) ->
   heap w hdr = Some (CData hsz) ->
+  heap w x = Some (CItem rcx nx) -> chunk_ok text nx ->
   len chunks = cap ->
   grow_req SZ_PTR cap = None ->
-  add_chunk refuse a x w = Ret false (w_log (AccR hdr) (w_log (AccR a) w)).
+  add_chunk refuse a x w = Ret false (w_pre text a x hdr w).
 Proof.
-  intros Ha Hh Hfull Hg. unfold add_chunk.
-  mstep (rd_item_spec a w _ _ Ha).
-  mstep (touch_data_spec false hdr (w_log (AccR a) w) hsz Hh).
+  intros Ha Hh Hx Hk Hfull Hg. rewrite (add_chunk_prefix a x w rc text hdr hsz _ cap chunks rcx nx Ha Hh Hx Hk).
+  set (w0 := w_pre text a x hdr w). clearbody w0.
   destruct (N.eqb_spec (len chunks) cap) as [_|E]; [|contradiction].
   match goal with |- bind (bind ?m ?f) ?g ?w1 = _ =>
     rewrite (bind_Ret (bind m f) g w1 None w1) end; [reflexivity|].
-  match goal with |- bind _ _ ?w1 = _ =>
-    mstep (grow_guard refuse arr SZ_PTR cap w1 Hg) end.
+  mstep (grow_guard refuse arr SZ_PTR cap w0 Hg).
   reflexivity.
 Qed.
 
-Theorem add_chunk_refused a x w rc text hdr hsz arr cap chunks c bytes :
+Theorem add_chunk_refused a x w rc text hdr hsz arr cap chunks c bytes rcx nx :
   heap w a = Some (CItem rc (NChunked text hdr arr cap chunks)) ->
   heap w hdr = Some (CData hsz) ->
+  heap w x = Some (CItem rcx nx) -> chunk_ok text nx ->
   data_ok w arr ->
   len chunks = cap ->
   grow_req SZ_PTR cap = Some (c, bytes) ->
   refuse (nreq w) bytes = true ->
   add_chunk refuse a x w =
-  Ret false (w_refused (EvRealloc arr bytes None) (w_log (AccR hdr) (w_log (AccR a) w))).
+  Ret false (w_refused (EvRealloc arr bytes None) (w_pre text a x hdr w)).
 Proof.
-  intros Ha Hh Hd Hfull Hg Hr. unfold add_chunk.
-  mstep (rd_item_spec a w _ _ Ha).
-  mstep (touch_data_spec false hdr (w_log (AccR a) w) hsz Hh).
+  intros Ha Hh Hx Hk Hd Hfull Hg Hr. rewrite (add_chunk_prefix a x w rc text hdr hsz _ cap chunks rcx nx Ha Hh Hx Hk).
+  set (w0 := w_pre text a x hdr w).
+  assert (H0 : heap w0 = heap w) by apply w_pre_heap. assert (N0 : nreq w0 = nreq w) by apply w_pre_nreq. clearbody w0.
+  assert (Hd0 : data_ok w0 arr) by (destruct arr as [d|]; [destruct Hd as [sz Hd]; exists sz; rewrite H0; exact Hd|exact I]).
+  assert (Hr0 : refuse (nreq w0) bytes = true) by (rewrite N0; exact Hr).
   destruct (N.eqb_spec (len chunks) cap) as [_|E]; [|contradiction].
   match goal with |- bind (bind ?m ?f) ?g ?w1 = _ =>
     rewrite (bind_Ret (bind m f) g w1 None (w_refused (EvRealloc arr bytes None) w1)) end;
     [reflexivity|].
-  match goal with |- bind _ _ ?w1 = _ =>
-    mstep (grow_refused refuse arr SZ_PTR cap w1 c bytes Hg Hd Hr) end.
+  mstep (grow_refused refuse arr SZ_PTR cap w0 c bytes Hg Hd0 Hr0).
   reflexivity.
 Qed.
 
@@ -1659,18 +1726,22 @@ Theorem add_chunk_granted a x w rc text hdr hsz arr cap chunks c bytes rcx nx :
   heap w hdr = Some (CData hsz) ->
   data_ok w arr ->
   arr <> Some hdr ->
-  heap w x = Some (CItem rcx nx) ->
+  heap w x = Some (CItem rcx nx) -> chunk_ok text nx ->
   a <> x ->
   len chunks = cap ->
   grow_req SZ_PTR cap = Some (c, bytes) ->
   refuse (nreq w) bytes = false ->
   add_chunk refuse a x w =
-  Ret true (w_chunk_grown a rc (NChunked text hdr (Some (next w)) c (chunks ++ [x]))
+  Ret true (w_chunk_grown text a rc (NChunked text hdr (Some (next w)) c (chunks ++ [x]))
               hdr arr bytes x rcx nx w).
 Proof.
-  intros Hwf Ha Hh Hd Hah Hx Hax Hfull Hg Hr. unfold add_chunk.
-  mstep (rd_item_spec a w _ _ Ha).
-  mstep (touch_data_spec false hdr (w_log (AccR a) w) hsz Hh).
+  intros Hwf Ha Hh Hd Hah Hx Hk Hax Hfull Hg Hr.
+  rewrite (add_chunk_prefix a x w rc text hdr hsz _ cap chunks rcx nx Ha Hh Hx Hk).
+  unfold w_chunk_grown. fold (w_pre text a x hdr w). set (w1 := w_pre text a x hdr w).
+  assert (H0 : heap w1 = heap w) by apply w_pre_heap. assert (N0 : nreq w1 = nreq w) by apply w_pre_nreq.
+  assert (X0 : next w1 = next w) by apply w_pre_next. clearbody w1.
+  assert (Hd0 : data_ok w1 arr) by (destruct arr as [d|]; [destruct Hd as [sz Hd]; exists sz; rewrite H0; exact Hd|exact I]).
+  assert (Hr0 : refuse (nreq w1) bytes = false) by (rewrite N0; exact Hr).
   destruct (N.eqb_spec (len chunks) cap) as [_|E]; [|contradiction].
   pose proof (wf_item_neq_next w a _ Hwf Ha) as Han.
   pose proof (wf_item_neq_next w x _ Hwf Hx) as Hxn.
@@ -1680,30 +1751,33 @@ Proof.
     - eapply item_data_neq; eauto.
     - eapply item_data_neq; eauto.
     - intros ->. apply Hah. reflexivity. }
-  set (w1 := w_log (AccR hdr) (w_log (AccR a) w)).
+  rewrite <- X0.
   set (w2 := w_realloc arr bytes w1).
   assert (H2 : forall b, b <> next w -> (forall d, arr = Some d -> b <> d) -> heap w2 b = heap w b).
-  { intros b Hb Hbd. subst w2 w1. wsimpl. rewrite upd_other by exact Hb.
-    destruct arr as [d|]; [rewrite upd_other by (apply Hbd; reflexivity)|]; reflexivity. }
+  { intros b Hb Hbd. subst w2. wsimpl. rewrite X0. rewrite upd_other by exact Hb.
+    destruct arr as [d|]; [rewrite upd_other by (apply Hbd; reflexivity)|]; rewrite H0; reflexivity. }
   assert (Hh2 : heap w2 hdr = Some (CData hsz)).
   { rewrite H2; [exact Hh | exact Hhn | intros d E; apply (Hda d E)]. }
   assert (Ha2 : heap w2 a = Some (CItem rc (NChunked text hdr arr cap chunks))).
   { rewrite H2; [exact Ha | exact Han | intros d E; apply (Hda d E)]. }
   assert (Hx2 : heap w2 x = Some (CItem rcx nx)).
   { rewrite H2; [exact Hx | exact Hxn | intros d E; apply (Hda d E)]. }
-  assert (Hn2 : heap w2 (next w) = Some (CData bytes)) by (subst w2 w1; wsimpl; apply upd_same).
+  assert (Hn2 : heap w2 (next w1) = Some (CData bytes)) by (subst w2; wsimpl; apply upd_same).
   match goal with |- bind (bind ?m ?f) ?g ?w0 = _ =>
-    rewrite (bind_Ret (bind m f) g w0 (Some (Some (next w), c)) (w_log (AccW hdr) w2)) end.
-  2:{ mstep (grow_granted refuse arr SZ_PTR cap w1 c bytes Hg Hd Hr). fold w2.
+    rewrite (bind_Ret (bind m f) g w0 (Some (Some (next w1), c)) (w_log (AccW hdr) w2)) end.
+  2:{ mstep (grow_granted refuse arr SZ_PTR cap w1 c bytes Hg Hd0 Hr0). fold w2.
       mstep (touch_data_spec true hdr w2 hsz Hh2). reflexivity. }
   match goal with |- bind (incref x) _ ?w3 = _ => mstep (incref_spec x w3 rcx nx Hx2) end.
   assert (Hxh : x <> hdr) by (intros ->; congruence).
-  match goal with |- bind (touch_data true (Some (next w))) _ ?w4 = _ =>
-    assert (Hn4 : heap w4 (next w) = Some (CData bytes)) by (wsimpl; rewrite upd_other by congruence; exact Hn2);
+  assert (Hxn1 : x <> next w1) by (rewrite X0; exact Hxn).
+  assert (Han1 : a <> next w1) by (rewrite X0; exact Han).
+  assert (Hhn1 : hdr <> next w1) by (rewrite X0; exact Hhn).
+  match goal with |- bind (touch_data true (Some (next w1))) _ ?w4 = _ =>
+    assert (Hn4 : heap w4 (next w1) = Some (CData bytes)) by (wsimpl; rewrite upd_other by congruence; exact Hn2);
     assert (Hh4 : heap w4 hdr = Some (CData hsz)) by (wsimpl; rewrite upd_other by congruence; exact Hh2);
     assert (Ha4 : heap w4 a = Some (CItem rc (NChunked text hdr arr cap chunks)))
       by (wsimpl; rewrite upd_other by congruence; exact Ha2);
-    mstep (touch_data_spec true (next w) w4 bytes Hn4) end.
+    mstep (touch_data_spec true (next w1) w4 bytes Hn4) end.
   match goal with |- bind (touch_data true (Some hdr)) _ ?w5 = _ =>
     mstep (touch_data_spec true hdr w5 hsz Hh4) end.
   match goal with |- bind (wr_item a rc ?nd) _ ?w6 = _ =>
@@ -1711,26 +1785,27 @@ Proof.
   reflexivity.
 Qed.
 
-Lemma w_chunk_props a rc nd hdr ar x rcx nx w :
+Lemma w_chunk_props text a rc nd hdr ar x rcx nx w :
   a <> x ->
-  let w' := w_chunk a rc nd hdr ar x rcx nx w in
+  let w' := w_chunk text a rc nd hdr ar x rcx nx w in
   heap w' a = Some (CItem rc nd) /\
   heap w' x = Some (CItem (wrap64 (rcx + 1)) nx) /\
   heap_but [a; x] w w' /\
   next w' = next w /\ nreq w' = nreq w /\ trace w' = trace w.
 Proof.
   clear refuse. intros Hax w'. subst w'. unfold w_chunk. wsimpl.
+  rewrite ?w_chk_next, ?w_chk_nreq, ?w_chk_trace. wsimpl.
   split; [apply upd_same|].
   split; [rewrite upd_other by congruence; apply upd_same|].
   split; [|repeat split].
   intros b Hb. cbn [In] in Hb. wsimpl.
-  rewrite !upd_other by (intros E; apply Hb; subst; tauto). reflexivity.
+  rewrite !upd_other by (intros E; apply Hb; subst; tauto). rewrite w_chk_heap. reflexivity.
 Qed.
 
-Lemma w_chunk_grown_props a rc nd hdr arr bytes x rcx nx w rc0 n0 :
+Lemma w_chunk_grown_props text a rc nd hdr arr bytes x rcx nx w rc0 n0 :
   wf w -> heap w a = Some (CItem rc0 n0) -> heap w x = Some (CItem rcx nx) -> a <> x ->
   (forall d, arr = Some d -> is_data w d) ->
-  let w' := w_chunk_grown a rc nd hdr arr bytes x rcx nx w in
+  let w' := w_chunk_grown text a rc nd hdr arr bytes x rcx nx w in
   heap w' a = Some (CItem rc nd) /\
   heap w' x = Some (CItem (wrap64 (rcx + 1)) nx) /\
   heap w' (next w) = Some (CData bytes) /\
@@ -1747,7 +1822,7 @@ Proof.
     - intros ->. congruence.
     - intros ->. congruence.
     - eapply wf_lt; eauto. }
-  wsimpl.
+  wsimpl. rewrite ?w_chk_next, ?w_chk_nreq, ?w_chk_trace, ?w_chk_heap. wsimpl.
   split; [apply upd_same|].
   split; [rewrite upd_other by congruence; apply upd_same|].
   split; [rewrite !upd_other by lia; apply upd_same|].
@@ -1755,12 +1830,12 @@ Proof.
   { intros d E. destruct (Hdd d E) as (H1 & H2 & H3). subst arr.
     rewrite !upd_other by lia. apply upd_same. }
   split.
-  { intros b Hb. cbn [In] in Hb. wsimpl.
+  { intros b Hb. cbn [In] in Hb. wsimpl. rewrite ?w_chk_next, ?w_chk_heap. wsimpl.
     rewrite !upd_other by (intros E; apply Hb; subst; tauto).
     destruct arr as [d|]; [|reflexivity]. cbn [opt_list In] in Hb.
     rewrite upd_other by (intros E; apply Hb; subst; tauto). reflexivity. }
   split; [reflexivity|]. split; [reflexivity|]. split; [reflexivity|].
-  unfold wf. wsimpl. intros b Hb. rewrite !upd_other by lia.
+  unfold wf. wsimpl. rewrite ?w_chk_next, ?w_chk_heap. wsimpl. intros b Hb. rewrite !upd_other by lia.
   destruct arr as [d|]; [|apply Hwf; lia].
   destruct (N.eq_dec b d) as [->|Hbd]; [apply upd_same|].
   rewrite upd_other by exact Hbd. apply Hwf. lia.
@@ -1771,13 +1846,20 @@ Proof.
   clear refuse. intros c Hc. wsimpl_in Hc. destruct Hc as [E|[E|Hc]]; [discriminate | discriminate | exact Hc].
 Qed.
 
-(* the packaged statement: an unbounded sequence of chunks, capacity doubling when full *)
+Lemma no_new_write_pre text a x hdr w : no_new_write w (w_pre text a x hdr w).
+Proof.
+  clear refuse. intros c Hc. unfold w_pre in Hc. cbn [alog w_log] in Hc. destruct Hc as [E|Hc]; [discriminate E|].
+  apply w_chk_writes in Hc. cbn [alog w_log] in Hc. destruct Hc as [E|Hc]; [discriminate E|exact Hc].
+Qed.
+
+(* the packaged statement: an unbounded sequence of chunks, capacity doubling when full.  [chunk_ok]: the
+   chunk of a byte string is a definite byte string (asserted by cbor_bytestring_add_chunk) *)
 Theorem add_chunk_spec a x w rc text hdr hsz arr cap chunks rcx nx :
   wf w ->
   heap w a = Some (CItem rc (NChunked text hdr arr cap chunks)) ->
   heap w hdr = Some (CData hsz) ->
   block_inv w arr cap -> arr <> Some hdr ->
-  heap w x = Some (CItem rcx nx) ->
+  heap w x = Some (CItem rcx nx) -> chunk_ok text nx ->
   a <> x ->
   cap < 2 ^ 64 ->
   (len chunks <> cap -> cap <> 0 ->
@@ -1811,7 +1893,7 @@ Theorem add_chunk_spec a x w rc text hdr hsz arr cap chunks rcx nx :
            wf w'
      end).
 Proof.
-  intros Hwf Ha Hh Hb Hah Hx Hax H64. split.
+  intros Hwf Ha Hh Hb Hah Hx Hk Hax H64. split.
   - intros Hroom Hc0. destruct arr as [ar|]; [|cbn [block_inv] in Hb; lia].
     destruct Hb as [asz Har]. eexists. split; [eapply add_chunk_room; eauto|].
     apply w_chunk_props. exact Hax.
@@ -1822,12 +1904,15 @@ Proof.
       split; [exact Hc|]. split; [exact Hlt|]. split; [exact Hbytes|]. split; [exact Hb64|].
       destruct (refuse (nreq w) bytes) eqn:R.
       * eexists. split; [eapply add_chunk_refused; eauto|].
-        split; [split; reflexivity|]. split; [apply no_new_write_log_rr|]. split; reflexivity.
+        split; [split; [cbn [heap w_refused]; apply w_pre_heap|cbn [next w_refused]; apply w_pre_next]|].
+        split; [intros c0 Hc0; cbn [alog w_refused] in Hc0; apply (no_new_write_pre text a x hdr w c0 Hc0)|].
+        split; [cbn [trace w_refused]; rewrite w_pre_trace; reflexivity|cbn [nreq w_refused]; rewrite w_pre_nreq; reflexivity].
       * eexists. split; [eapply add_chunk_granted; eauto|].
         eapply w_chunk_grown_props; eauto.
         intros d E. subst arr. exact Hd.
     + eexists. split; [eapply add_chunk_guard; eauto|].
-      split; [split; reflexivity|]. split; [apply no_new_write_log_rr|]. split; reflexivity.
+      split; [split; [apply w_pre_heap|apply w_pre_next]|]. split; [apply no_new_write_pre|].
+      split; [apply w_pre_trace|apply w_pre_nreq].
 Qed.
 
 End Chunks.
